@@ -140,6 +140,31 @@ def run_mcs(pid, tier, outdir):
         res.append(r)
         if not r["ok"]:
             errors.append("model checking config %s failed: the specification is inconsistent or the run did not finish (see %s)" % (name, logp))
+    # unbounded lemmas (TLAPS): re-proved from scratch in a private copy (tlapm caches next to the module)
+    for pf in spec.get("proofs", []):
+        import re
+        pdir = os.path.join(outdir, "proofs")
+        shutil.rmtree(pdir, ignore_errors=True)
+        os.makedirs(pdir)
+        shutil.copy(os.path.join(tlc.SPEC, "proofs", pf), pdir)
+        t0 = time.time()
+        logp = os.path.join(outdir, "tlaps_%s.log" % pf.replace(".tla", ""))
+        try:
+            pr = subprocess.run(["tlapm", "--threads", "4", pf], cwd=pdir, stdout=subprocess.PIPE, stderr=subprocess.STDOUT,
+                                text=True, timeout=900)
+            out = pr.stdout
+        except (subprocess.TimeoutExpired, OSError) as ex:
+            out = "tlapm did not finish: %s" % ex
+        open(logp, "w").write(out)
+        m = re.search(r"All (\d+) obligations? proved", out)
+        ok = bool(m) and "failed" not in out
+        nob = int(m.group(1)) if m else 0
+        wall = time.time() - t0
+        log("[tlaps] %s: %s, %d obligations, %.1fs" % (pf, "ok" if ok else "FAILED", nob, wall))
+        res.append({"name": "TLAPS " + pf, "ok": ok, "generated": nob, "distinct": nob, "wall": wall})
+        shutil.rmtree(pdir, ignore_errors=True)
+        if not ok:
+            errors.append("TLAPS did not prove %s (see %s)" % (pf, logp))
     return res, errors
 
 
